@@ -7,8 +7,8 @@ import vlib, ldpc, sessions
 
 
 def strip(ans):
-    """tokens comparable between drv_dec (solo) and drv_multi: drop H, Y, LK"""
-    return " ".join(t for t in ans.split()[1:] if not (t.startswith("H") or t.startswith("Y") or t.startswith("LK")))
+    """tokens comparable between drv_dec (solo) and drv_multi: drop H, Y, LK, PM"""
+    return " ".join(t for t in ans.split()[1:] if not (t.startswith("H") or t.startswith("Y") or t.startswith("LK") or t.startswith("PM")))
 
 
 def run(c):
